@@ -116,6 +116,9 @@ def main(argv=None):
         root = os.path.join(base, "outer", "proj")
         for d in ["", "sub/deep", "w/x", "v", "d/e", "a", "b", "x", "abswd", "../sib", "../outwd"]:
             os.makedirs(os.path.normpath(os.path.join(root, d)), exist_ok=True)
+        for dirpath, dirnames, _ in os.walk(os.path.join(base, "outer")):
+            with open(os.path.join(dirpath, "data.txt"), "w") as fh_:
+                fh_.write("x")
         from stepup.core import api
         from stepup.core.path import translate, translate_back
         from stepup.core.stepinfo import StepInfo
@@ -143,6 +146,7 @@ def main(argv=None):
             v["got_keep"] = with_env(root, v["here"], lambda v=v: call_str(lambda: api._keep_affixes(v["path"], translate)), unset)
         # ---- api functions with a capturing client
         api_checks = []
+        amend_seqs = []
         real_get = api.get_rpc_client
         cap = Capture()
         api.get_rpc_client = lambda path=None: cap
@@ -167,10 +171,27 @@ def main(argv=None):
                     api_checks.append({"fn": "amend", "here": here, "workdir": ".", "inp": [p_], "out": [], "err": err,
                                        "sent": [sorted(map(str, sent[0][1][1])), [], "."] if sent else None})
                 for p_ in ["sub/deep/i.txt", "d/f.txt", "f.txt", "../sib/k.txt"]:
-                    cap.step_info = StepInfo("prog", [p_], [], [], [], here)
-                    info = with_env(root, here, lambda: api.get_info())
-                    api_checks.append({"fn": "get_info", "here": here, "workdir": ".", "inp": [p_], "out": [], "err": "",
-                                       "sent": [sorted(map(str, info.inp)), [], "."]})
+                    for field in ("inp", "out", "vol"):
+                        cap.step_info = StepInfo("prog", [p_] if field == "inp" else [], [], [p_] if field == "out" else [],
+                                                 [p_] if field == "vol" else [], here)
+                        info = with_env(root, here, lambda: api.get_info())
+                        api_checks.append({"fn": "get_info", "here": here, "workdir": ".", "inp": [p_], "out": [], "err": "",
+                                           "sent": [sorted(map(str, getattr(info, field))), [], "."]})
+                # several amend() calls of one step process: what was sent before is not sent again,
+                # but every distinct file must reach the director under its root-relative name
+                for _ in range(3):
+                    cand = ["data.txt", "../data.txt", "sub/data.txt", "deep/data.txt", "./data.txt", "../sub/data.txt", "../../data.txt",
+                            "sub/deep/data.txt", "../proj/data.txt", "proj/data.txt", "proj/sub/data.txt"]
+                    hdir = os.path.normpath(os.path.join(root, here))
+                    seq = [c for c in cand if os.path.exists(os.path.join(hdir, c))]
+                    rng.shuffle(seq)
+                    for hist in api._AMEND_HISTORY.values():
+                        hist.clear()
+                    del cap.calls[:]
+                    for p_ in seq:
+                        with_env(root, here, lambda p_=p_: call_str(lambda: api.amend(inp=[p_])))
+                    sent_all = sorted({str(x) for c in cap.calls if c[0] == "amend_step" for x in c[1][1]})
+                    amend_seqs.append({"here": here, "seq": seq, "sent": sent_all})
                 os.environ.pop("STEPUP_JOB_I", None)
         finally:
             api.get_rpc_client = real_get
@@ -197,6 +218,18 @@ def main(argv=None):
                                 "got_t": sent_wd,
                                 "got_b": with_env(root, chk["here"], lambda chk=chk: call_str(lambda: translate_back(chk["workdir"]))),
                                 "got_keep": with_env(root, chk["here"], lambda chk=chk: call_str(lambda: api._keep_affixes(chk["workdir"], translate)))})
+        # amend sequences: one xlate vector per argument (got_t = the real translate), the union of
+        # the specification's translations must be what reached the director
+        seq_index = []
+        for sq in amend_seqs:
+            ids = []
+            for p_ in sq["seq"]:
+                vectors.append({"kind": "xlate", "root": root, "here": sq["here"], "workdir": ".", "path": p_, "mode": "api.amend.seq",
+                                "got_t": with_env(root, sq["here"], lambda p_=p_, sq=sq: call_str(lambda: translate(p_))),
+                                "got_b": with_env(root, sq["here"], lambda p_=p_, sq=sq: call_str(lambda: translate_back(p_))),
+                                "got_keep": with_env(root, sq["here"], lambda p_=p_, sq=sq: call_str(lambda: api._keep_affixes(p_, translate)))})
+                ids.append(len(vectors) - 1)
+            seq_index.append((sq, ids))
         # ---- what the executor exports
         envs, rc = executor_env(root)
         if rc != 0 or len(envs) < 4:
@@ -240,6 +273,12 @@ def main(argv=None):
             return report.finish()
         finally:
             shutil.rmtree(work, ignore_errors=True)
+        for sq, ids in seq_index:
+            want = sorted({results[vectors[i]["id"]]["translate"] for i in ids})
+            if want != sq["sent"]:
+                report.add_violation("amended_inputs_did_not_all_reach_the_director",
+                                     json.dumps({"here": sq["here"], "calls": sq["seq"], "sent": sq["sent"], "want": want}).replace(root, "<root>")[:700],
+                                     {"here": sq["here"], "seq": sq["seq"]}, tid="amendseq")
         nontrivial = 0
         for v in vectors:
             r = results[v["id"]]
